@@ -521,3 +521,20 @@ PROPS["C18"]["explanation"] = PROPS["C18"]["explanation"].replace(
 PROPS["C18"]["statement_coverage"] = ("full statement proved for VClock, GCounter, PNCounter, MVReg, Orswot and Map (any value type / nesting depth; the value-level laws under the structural invariant MapWF, "
                                       "whose key-level half is proved for all derivable states and whose value-level half is the value type's own invariant)")
 MANIFEST_TEXT["C18"]["text"] = MANIFEST_TEXT["C18"]["text"].replace("(VClock, GCounter, PNCounter, MVReg, Orswot).", "(VClock, GCounter, PNCounter, MVReg, Orswot, and Map over any lawful value type, hence every nesting depth: Map::reset_remove is proved to be Orswot::reset_remove on the keys plus V::reset_remove on the values).")
+
+# --------------------------------------------------------------------------------------------
+# Map::validate_merge (C17): exact verdict, dot clause = Orswot::validate_merge on the keys, correct use accepted
+# --------------------------------------------------------------------------------------------
+PROPS["C17"]["lean_targets"] = PROPS["C17"]["lean_targets"] + ["CrdtModel.Props.C17Map"]
+PROPS["C17"]["required_theorems"] += ["Crdt.C17." + t for t in [
+    "map_ok_iff", "map_error_iff", "map_dot_check_is_orswot", "map_dot_check_shared", "map_dot_check_symmetric", "map_misuse_flagged",
+    "keyLog_single", "map_no_double_spent_reachable", "map_ok_reachable_iff", "map_ok_reachable_of_total", "map_mvreg_ok_reachable"]] + [
+    "Crdt.CMap.validateMerge_ok_iff", "Crdt.CMap.dotHit_iff_keys"]
+PROPS["C17"]["explanation"] = PROPS["C17"]["explanation"].replace(
+    "Map::validate_merge: correspondence only (map_corr VM commands).",
+    "Map::validate_merge (Props/C17Map.lean, every value type): exact verdict for all pairs of states (dot clause over entries under different keys + nested clause for keys held by both with concurrent entry clocks); "
+    "the dot clause IS Orswot::validate_merge on the Orswot of keys, hence symmetric on well-formed states and misuse always flagged; a Map update names one key per dot, so between derivable states the dot clause never fires "
+    "(map_no_double_spent_reachable) and Map<K,MVReg> accepts every pair of derivable states in both directions (map_mvreg_ok_reachable).")
+PROPS["C17"]["statement_coverage"] = ("Orswot and LWWReg: full statement for single-member adds; add_all: false on the pinned tree (known finding KF-C17-add-all-validate-merge); "
+                                      "Map: exact verdict proved for every value type, correct use accepted at key level for every value type and in full for Map<K,MVReg>; nested Orswot values inherit the add_all finding")
+MANIFEST_TEXT["C17"]["text"] = MANIFEST_TEXT["C17"]["text"].replace("LWWReg marker conflicts exact.", "LWWReg marker conflicts exact. Map::validate_merge: exact verdict for every value type, its dot clause proved equal to Orswot::validate_merge on the keys, never firing between derivable states (one key per dot); Map<K,MVReg> accepts all derivable pairs.")
